@@ -17,6 +17,12 @@ VALS = [0, 1, 2, 3, 7, 45, 300, 1300]
 FUNCS = ("move_dist_lt", "calculate_lm", "move_dist_t3", "rate_t3", "max_rate_t3")
 
 
+# one argument of the wrong kind each (an accumulator that is neither a number nor "clear")
+BAD_CALLS = {"move_dist_lt": (1000, 10, 5, "Clear"), "calculate_lm": (3, 1000, 10, None),
+             "move_dist_t3": (5, 1000, 10, 1, "none"), "rate_t3": (5, None, 10, 1),
+             "max_rate_t3": (5, 1000, None, 1)}
+
+
 def _lib():
     from plotink import ebb_calc            # pylint: disable=import-outside-toplevel
     return ebb_calc
@@ -90,8 +96,23 @@ def run_history(target, args):
             pass
     out = []
     func = getattr(ebb_calc, target)
+    import mpmath                           # pylint: disable=import-outside-toplevel
     for nth in ("after its sibling functions were called with the same values",
-                "on the second identical call in a row"):
+                "on the second identical call in a row",
+                "after every calculator rejected a malformed call, under an ambient mpmath "
+                "precision of 5 digits"):
+        if nth.startswith("after every"):
+            # what a rejected call leaves behind (a flag, a half-set precision) must not matter
+            for name in FUNCS:
+                for bad in (BAD_CALLS[name], (None,) * 4):
+                    try:
+                        with core.watchdog(5.0):
+                            getattr(ebb_calc, name)(*bad)
+                    except Exception:       # pylint: disable=broad-except
+                        pass
+                    except core.CaseTimeout:
+                        pass
+            mpmath.mp.dps = 5
         try:
             got = func(*args)
         except Exception as exc:            # pylint: disable=broad-except
@@ -101,6 +122,7 @@ def run_history(target, args):
         bad = verdict(target, args, got)
         if bad:
             out.append(f"{bad} - {nth}")
+    mpmath.mp.dps = 15
     return out
 
 
